@@ -318,6 +318,76 @@ impl<'a> Ctx<'a> {
         ));
       }
     }
+    // `let f = |x: T, ..| body;` : a local function (non-capturing of anything mutable: the model is pure)
+    if let (syn::Expr::Closure(c), syn::Pat::Ident(pi)) = (&*init.expr, pat) {
+      let mut ptys = vec![];
+      let mut binders = vec![];
+      let depth = self.vars.len();
+      for inp in &c.inputs {
+        match inp {
+          syn::Pat::Type(pt) => {
+            let t = self.syn_ty(&pt.ty)?;
+            let b = self.bind_pat(&pt.pat, &t)?;
+            binders.push(format!("({} : {})", b, coq_type(&t)?));
+            ptys.push(t);
+          }
+          _ => { self.vars.truncate(depth); return Err("closure parameter without a type annotation".into()); }
+        }
+      }
+      let body = self.expr(&c.body, None);
+      self.vars.truncate(depth);
+      let body = body?;
+      let fname = pi.ident.to_string();
+      self.vars.push((fname.clone(), Ty::Fn(ptys, Box::new(body.ty.clone()))));
+      let r = self.block(rest, expected)?;
+      let code = format!("(let {} := (fun {} => {}) in\n   {})", vname(&fname), binders.join(" "), body.lifted(), r.lifted());
+      return Ok(Tr::eff(code, r.ty));
+    }
+    // `let x = match r { Ok(p) => e, Err(q) => return E };` (either arm order): the explicit form of `?`
+    if let syn::Expr::Match(m) = &*init.expr {
+      if m.arms.len() == 2 && m.arms.iter().all(|a| a.guard.is_none()) {
+        let mut okarm = None;
+        let mut errarm = None;
+        for arm in &m.arms {
+          if let syn::Pat::TupleStruct(ts) = &arm.pat {
+            let n = path_str(&ts.path);
+            if n == "Ok" && ts.elems.len() == 1 { okarm = Some((&ts.elems[0], &*arm.body)); }
+            if n == "Err" && ts.elems.len() == 1 { errarm = Some((&ts.elems[0], &*arm.body)); }
+          }
+        }
+        if let (Some((okp, okb)), Some((errp, syn::Expr::Return(rexp)))) = (okarm, errarm) {
+          if let Some(rv) = &rexp.expr {
+            let scr = self.expr(&m.expr, None)?;
+            let (okty, errty) = match &scr.ty {
+              Ty::Result(a, b) => ((**a).clone(), (**b).clone()),
+              other => return Err(format!("Ok/Err match on non-Result {:?}", other)),
+            };
+            let fn_ret = self.ret.clone();
+            let depth = self.vars.len();
+            let errbind = self.bind_pat(errp, &errty)?;
+            let early = self.expr(rv, Some(&fn_ret));
+            self.vars.truncate(depth);
+            let early = early?;
+            let okbind = self.bind_pat(okp, &okty)?;
+            let okv = self.expr(okb, ann.as_ref());
+            let okv = match okv { Ok(v) => v, Err(e) => { self.vars.truncate(depth); return Err(e); } };
+            self.vars.truncate(depth);
+            let vty = ann.clone().unwrap_or_else(|| okv.ty.clone());
+            let binder = self.bind_pat(pat, &vty)?;
+            let r = self.block(rest, expected)?;
+            let inner = if okv.pure {
+              format!("(let {} := {} in {})", binder_let(&binder), okv.code, r.lifted())
+            } else {
+              format!("({} <- {} ;; {})", binder_bind(&binder), okv.code, r.lifted())
+            };
+            let code = format!(
+              "(t_r <- {} ;;\n   match t_r with\n   | Err {} => {}\n   | Ok {} => {}\n   end)",
+              scr.lifted(), pat_paren(&errbind), early.lifted(), pat_paren(&okbind), inner);
+            return Ok(Tr::eff(code, r.ty));
+          }
+        }
+      }
+    }
     // `let x = e?;`
     if let syn::Expr::Try(t) = &*init.expr {
       let scr = self.expr(&t.expr, None)?;
@@ -574,6 +644,45 @@ impl<'a> Ctx<'a> {
           (format!("match {} with\n   | Ok t_ok => (let {} := t_ok in {})\n   | Err {} => {}\n   end", n[0], pat_paren(&gbind), gcode, pat_paren(&errbind), el), false)
         });
         return Ok(Tr { code: format!("({})", code), ty, pure });
+      }
+    }
+    // shape B: a tuple of boolean conditions matched against `(true, _)`-style rows, first match wins
+    if let syn::Expr::Tuple(tup) = &*m.expr {
+      let n = tup.elems.len();
+      let rows_ok = n >= 1 && m.arms.iter().all(|a| a.guard.is_none() && match &a.pat {
+        syn::Pat::Tuple(pt) => pt.elems.len() == n && pt.elems.iter().all(|e| matches!(e, syn::Pat::Wild(_))
+          || matches!(e, syn::Pat::Lit(l) if matches!(&l.lit, syn::Lit::Bool(_)))),
+        syn::Pat::Wild(_) => true,
+        _ => false,
+      });
+      if rows_ok && !m.arms.is_empty() {
+        let mut comps = vec![];
+        for e in &tup.elems {
+          let c = self.expr(e, Some(&Ty::Bool))?;
+          if c.ty != Ty::Bool { return Err("tuple-of-conditions match on a non-bool".into()); }
+          comps.push(c);
+        }
+        let mut bodies = vec![];
+        for a in &m.arms { bodies.push(self.expr(&a.body, expected)?); }
+        let ty = bodies.iter().map(|b| b.ty.clone()).find(|t| *t != Ty::Never).unwrap_or(Ty::Never);
+        let arms: Vec<Vec<Option<bool>>> = m.arms.iter().map(|a| match &a.pat {
+          syn::Pat::Tuple(pt) => pt.elems.iter().map(|e| match e {
+            syn::Pat::Lit(l) => match &l.lit { syn::Lit::Bool(b) => Some(b.value), _ => None },
+            _ => None }).collect(),
+          _ => vec![None; n],
+        }).collect();
+        let lifted: Vec<String> = bodies.iter().map(|b| b.lifted()).collect();
+        let (code, _) = self.seq(comps, |names| {
+          // the last row is the default (rustc has checked exhaustiveness)
+          let mut out = lifted[lifted.len() - 1].clone();
+          for j in (0..lifted.len() - 1).rev() {
+            let conds: Vec<String> = arms[j].iter().enumerate().filter_map(|(i, v)| v.map(|b| if b { names[i].clone() } else { format!("(negb {})", names[i]) })).collect();
+            let cond = if conds.is_empty() { "true".to_string() } else { conds.join(" && ") };
+            out = format!("(if ({}) then {} else {})", cond, lifted[j], out);
+          }
+          (out, false)
+        });
+        return Ok(Tr::eff(code, ty));
       }
     }
     // shape 1: Result scrutinee with an Ok arm and an Err arm
@@ -841,6 +950,27 @@ impl<'a> Ctx<'a> {
       }
     }
 
+    // a local closure bound by `let`
+    if fp.qself.is_none() && fp.path.segments.len() == 1 {
+      if let Some(Ty::Fn(ptys, rty)) = self.lookup(&lname) {
+        if ptys.len() != args.len() { return Err("closure arity".into()); }
+        let mut ts = vec![];
+        for (a, t) in args.iter().zip(ptys.iter()) { ts.push(self.expr(a, Some(t))?); }
+        let f = vname(&lname);
+        let (code, _) = self.seq(ts, |n| (format!("({} {})", f, n.join(" ")), false));
+        return Ok(Tr::eff(code, (*rty).clone()));
+      }
+    }
+    // <[A]>::len(a)
+    if let Some(q) = &fp.qself {
+      if lname == "len" && args.len() == 1 && matches!(&*q.ty, syn::Type::Slice(_)) {
+        let recv = self.expr(args[0], None)?;
+        if recv.ty.is_sliceptr() && recv.pure {
+          return Ok(Tr::pure(format!("(slen {})", recv.code), Ty::Usize));
+        }
+        return Err("<[T]>::len of something that is not a slice".into());
+      }
+    }
     // <B as CheckedBitPattern>::is_valid_bit_pattern(x)
     if let Some(q) = &fp.qself {
       if lname == "is_valid_bit_pattern" && args.len() == 1 {
